@@ -2,8 +2,9 @@
 
 Read with `ast` from the source of `openpectus.engine.engine` and `openpectus.engine.engine_message_handlers` on every run:
   * the lock attribute(s) of `Engine` (attributes assigned `Lock()` in `__init__`);
-  * `Engine.tick`: its sub-calls on `self…` in source order (calls in `except` handlers are error paths and are left
-    out), each with the flag "inside `with self._lock`".  The label of a call is its last attribute, prefixed with
+  * `Engine.tick`: its sub-calls on `self…` in execution order (calls in `except` handlers are error paths and are left
+    out), each with the flag "inside `with self.<lock>`"; calls of other `Engine` methods are followed (depth <= 3) and
+    what they call inherits the lock state of the call site — so a phase moved into a private helper stays in the table.  The label of a call is its last attribute, prefixed with
     the owner when the attribute is `tick` (`self.uod.hwl.tick` -> "hwl.tick", `self._command_manager.tick` ->
     "command_manager.tick") — the same labels the harness uses for its yield points;
   * yield points *nested* in a sub-call of the tick, where a tick spends its time: `hwl.read_batch` / `hwl.write_batch`
@@ -72,39 +73,73 @@ def _engine_class() -> tuple[ast.ClassDef, dict[str, ast.FunctionDef]]:
 
 
 def _locks(methods: dict[str, ast.FunctionDef]) -> list[str]:
+    """Attributes of `self` that `__init__` sets to a `Lock()` / `RLock()` (plain or annotated assignment) — whatever
+    they are called."""
     out = []
     for n in ast.walk(methods["__init__"]):
-        if isinstance(n, ast.Assign) and isinstance(n.value, ast.Call):
-            f = n.value.func
+        if isinstance(n, ast.Assign):
+            targets, value = n.targets, n.value
+        elif isinstance(n, ast.AnnAssign) and n.value is not None:
+            targets, value = [n.target], n.value
+        else:
+            continue
+        if isinstance(value, ast.Call):
+            f = value.func
             fname = f.id if isinstance(f, ast.Name) else f.attr if isinstance(f, ast.Attribute) else ""
             if fname in ("Lock", "RLock"):
-                for t in n.targets:
+                for t in targets:
                     ch = _chain(t)
-                    if ch and len(ch) == 2 and ch[0] == "self":
+                    if ch and len(ch) == 2 and ch[0] == "self" and ch[1] not in out:
                         out.append(ch[1])
     return out
 
 
-def _tick_calls(fn: ast.FunctionDef, locks: set[str]) -> list[tuple[str, bool]]:
-    calls: list[tuple[int, int, str, bool]] = []
+def _tick_calls(fn: ast.FunctionDef, locks: set[str], methods: dict[str, ast.FunctionDef] | None = None) \
+        -> list[tuple[str, bool]]:
+    """Sub-calls of the tick in execution order with their lock state.  A call of another method of the class
+    (`self._helper(...)`) is listed and then followed (depth <= 3): what the helper calls inherits the lock state of the
+    call site, so moving a phase of the tick into a private helper does not change the table's content."""
+    methods = methods or {}
+    out: list[tuple[str, bool]] = []
 
-    def walk(node: ast.AST, inside: bool) -> None:
-        if isinstance(node, ast.ExceptHandler):
-            return
-        if _is_lock_with(node, locks):
-            for st in node.body:  # type: ignore[attr-defined]
-                walk(st, True)
-            return
-        if isinstance(node, ast.Call):
-            ch = _chain(node.func)
-            if ch and ch[0] == "self" and len(ch) >= 2:
-                calls.append((node.lineno, node.col_offset, _label(ch), inside))
-        for c in ast.iter_child_nodes(node):
-            walk(c, inside)
-    for st in fn.body:
-        walk(st, False)
-    calls.sort()
-    return [(lab, ins) for (_, _, lab, ins) in calls]
+    def visit(fn_node: ast.FunctionDef, inside0: bool, depth: int, stack: tuple[str, ...]) -> None:
+        calls: list[tuple[int, int, ast.Call, bool]] = []
+
+        def walk(node: ast.AST, inside: bool) -> None:
+            if isinstance(node, ast.ExceptHandler):
+                return
+            if _is_lock_with(node, locks):
+                for st in node.body:  # type: ignore[attr-defined]
+                    walk(st, True)
+                return
+            if isinstance(node, ast.Call):
+                ch = _chain(node.func)
+                if ch and ch[0] == "self" and len(ch) >= 2:
+                    calls.append((node.lineno, node.col_offset, node, inside))
+            for c in ast.iter_child_nodes(node):
+                walk(c, inside)
+        for st in _body(fn_node):
+            walk(st, inside0)
+        calls.sort(key=lambda x: (x[0], x[1]))
+        for (_, _, call, inside) in calls:
+            ch = _chain(call.func)
+            assert ch is not None
+            out.append((_label(ch), inside))
+            if len(ch) == 2 and ch[1] in methods and ch[1] not in stack and depth < 3:
+                visit(methods[ch[1]], inside, depth + 1, stack + (ch[1],))
+    visit(fn, False, 0, (fn.name,))
+    # one row per label: the first occurrence decides (a label seen both outside and inside the lock is reported as
+    # outside, the conservative answer)
+    table: dict[str, bool] = {}
+    for lab, ins in out:
+        table[lab] = table.get(lab, True) and ins
+    seen: set[str] = set()
+    res = []
+    for lab, _ in out:
+        if lab not in seen:
+            seen.add(lab)
+            res.append((lab, table[lab]))
+    return res
 
 
 def _entry_points() -> list[str]:
@@ -256,7 +291,7 @@ def analyse() -> dict:
     tick_outside, _, _ = _lock_regions(methods["tick"], lockset)
     prologue = _touches(list(tick_outside), methods, lockset, True)
     shared = sorted((prologue & request_touches) - {"_running", "_tick_timer"})
-    tick = _tick_calls(methods["tick"], lockset)
+    tick = _tick_calls(methods["tick"], lockset, methods)
     return {"locks": locks, "tick": tick, "nested": _nested(methods, [lab for (lab, _) in tick]), "entries": entries,
             "prologue_shared": shared}
 
